@@ -219,6 +219,12 @@ func init() {
 		extra: func(c *fw.Ctx, do func(string)) {
 			deepFieldPrograms(5, do)
 			builtinLikeFields(do)
+			// fields that hold nil / false / 0 / "" are fields: read back in their own block, from a child, and shadowing an outer one
+			for _, v := range []string{"nil", "false", "0", `""`, "0.0"} {
+				do("def a { x = " + v + "; y = x; z = x == " + v + " }\ndef later { ok = 1 }")
+				do("def a { x = 1; def b { x = " + v + "; y = x; def c { w = x } }; u = x }\ndef later { ok = 1 }")
+				do("def a { x = " + v + "; def b { y = x; x = 2; t = x }; u = x }")
+			}
 			do(`def b "nm" { NAME = "label"; id = NAME; print NAME; def TYPE {}; print TYPE; t = TYPE }`)
 			do(`def b "nm" { def NAME "x" {}; def in { print NAME; print TYPE; TYPE = 3; y = TYPE } }`)
 			for _, sc := range gen.ScaledFamilies(false) {
